@@ -930,6 +930,13 @@ func main() {
 		}
 	}
 
+	// every listed known finding of this property is named on every run, whether or not this run met it
+	for ki, k := range known {
+		if k.Status == "known" && k.Property == id && !knownHits[ki] {
+			fmt.Printf("KNOWN-FINDING: property=%s %s (listed in known_findings.json; not encountered in this run)\n", id, k.What)
+		}
+	}
+
 	// 6. evidence
 	probes := agg.Probes
 	ev := map[string]any{
